@@ -98,6 +98,16 @@ type CrashChecker interface {
 	RunTimeout() float64
 }
 
+// HangAttributor is implemented by crash checkers whose harness has blocking
+// machinery of its own (the scheduler of C12 / C20): a run that does not return
+// counts against the property only when the goroutine dump of the confirming
+// child process shows a goroutine that is running (not parked) with library
+// code as its innermost non-standard-library frame; a child in which everything
+// is parked is harness trouble.
+type HangAttributor interface {
+	HangNeedsLibraryFrame() bool
+}
+
 // Hash64 hashes strings into a signature.
 func Hash64(parts ...string) uint64 {
 	h := fnv.New64a()
